@@ -674,6 +674,17 @@ func genOnce(r *Rand, pkg string, prof Profile) *Spec {
 		inj.Items = g.group(uses, k)
 		g.sp.Injectors = append(g.sp.Injectors, inj)
 	}
+	// engine B: one more file composes the first file's generated injector into a larger one
+	if prof.AdversarialNames && len(g.sp.Injectors) > 0 && r.Chance(1, 4) {
+		in := &g.sp.Injectors[0]
+		in.File = 0
+		if t := &g.sp.Types[in.Ret]; t.Kind != KCtx {
+			w := g.newType(KPtr)
+			wp := Provider{Name: fmt.Sprintf("P%d", len(g.sp.Providers)), Form: "func", In: []int{in.Ret}, Out: []int{w}}
+			g.sp.Providers = append(g.sp.Providers, wp)
+			g.sp.Compose = &ComposeDef{File: "k9.go", Outer: "InitOuter", Inner: in.Name, Wrapper: wp.Name, Requested: g.sp.Types[w].Expr()}
+		}
+	}
 	// profile requirements are judged on the reference evaluation of the first injector
 	ok := false
 	for i := range g.sp.Injectors {
